@@ -1169,6 +1169,10 @@ impl FileFragment {
         for data_file in &self.metadata.files {
             let last = -1;
             for field_id in &data_file.fields {
+                // Tombstoned fields (-2) hold no data any more: a file may carry several of them
+                if *field_id == -2 {
+                    continue;
+                }
                 if *field_id <= last {
                     return Err(Error::corrupt_file(
                         self.dataset
